@@ -315,15 +315,15 @@ Section Replace.
   Proof. unfold model_members. destruct (to_json_tag true m) as (o & Ho & _). rewrite Ho. reflexivity. Qed.
 
   (* replace() without updates returns the value itself *)
-  Lemma replace_identity_lemma m : model_wf m = true -> replace lax false m [] = Ok m.
+  Lemma replace_identity_lemma d m : model_wf m = true -> replace lax d m [] = Ok m.
   Proof.
-    intros H. unfold replace. cbn [app]. rewrite <- members_to_json, (of_json_as_roundtrip lax true m H). reflexivity.
+    intros H. unfold replace, replace_dump. rewrite andb_false_r. cbn [app]. rewrite <- members_to_json, (of_json_as_roundtrip lax true m H). reflexivity.
   Qed.
 
   (* whatever replace() returns satisfies the field constraints and has the same class *)
   Lemma replace_sound_lemma d m upd m' : replace lax d m upd = Ok m' -> model_wf m' = true.
   Proof.
-    unfold replace. destruct d; [discriminate|].
+    unfold replace, replace_dump. rewrite andb_false_r.
     destruct (of_json_as lax (class_name m) (JObj (upd ++ model_members m))) as [r|] eqn:E; [|discriminate].
     intros ->. exact (of_json_as_sound lax _ _ _ E).
   Qed.
@@ -338,7 +338,7 @@ Section Replace.
 
   Lemma replace_class_lemma d m upd m' : replace lax d m upd = Ok m' -> class_name m' = class_name m.
   Proof.
-    unfold replace. destruct d; [discriminate|].
+    unfold replace, replace_dump. rewrite andb_false_r.
     destruct (of_json_as lax (class_name m) (JObj (upd ++ model_members m))) as [r|] eqn:E; [|discriminate].
     intros ->. exact (of_json_as_class _ _ _ E).
   Qed.
@@ -348,7 +348,7 @@ Section Replace.
     mem_str k [k_model; k_uri; k_name; k_sortname; k_mbid] = false ->
     replace lax false (MArtist a) [(k, v)] = Raise EValidationError.
   Proof.
-    intros Hk. unfold replace, of_json_as. cbn [class_name].
+    intros Hk. unfold replace, replace_dump, of_json_as. cbn [class_name andb].
     replace (str_eqb n_Artist n_Ref) with false by reflexivity.
     replace (str_eqb n_Artist n_Image) with false by reflexivity.
     replace (str_eqb n_Artist n_Artist) with true by reflexivity.
@@ -356,11 +356,11 @@ Section Replace.
   Qed.
 
   (* set-then-get for a plain field: replace(name=s) *)
-  Lemma replace_artist_name a s :
+  Lemma replace_artist_name d a s :
     artist_wf a = true ->
-    replace lax false (MArtist a) [(k_name, JStr s)] = Ok (MArtist (mkArtist (ar_uri a) (Some s) (ar_sortname a) (ar_mbid a))).
+    replace lax d (MArtist a) [(k_name, JStr s)] = Ok (MArtist (mkArtist (ar_uri a) (Some s) (ar_sortname a) (ar_mbid a))).
   Proof.
-    intros Hw. unfold replace, of_json_as. cbn [class_name].
+    intros Hw. unfold replace, replace_dump, of_json_as. rewrite andb_false_r. cbn [class_name].
     replace (str_eqb n_Artist n_Ref) with false by reflexivity.
     replace (str_eqb n_Artist n_Image) with false by reflexivity.
     replace (str_eqb n_Artist n_Artist) with true by reflexivity.
@@ -385,9 +385,10 @@ Section Replace.
   Qed.
 End Replace.
 
-(* open finding: on a value decoded from tagged JSON, replace() raises, so the identity law fails *)
+(* the pinned code (dump by field name): on a value decoded from tagged JSON replace() raises,
+   so the identity law failed there; fixed by the commit recorded in known_findings.json *)
 Lemma replace_identity_refuted_when_decoded :
-  exists m, model_wf m = true /\ forall lax, replace lax true m [] <> Ok m.
+  exists m, model_wf m = true /\ forall lax, replace_pinned lax true m [] <> Ok m.
 Proof. exists (MArtist (mkArtist None None None None)). split; [reflexivity|]. intros lax. discriminate. Qed.
 
 Example nv_eq_sets :
